@@ -26,7 +26,7 @@ the target line.  Never line numbers.  A missing anchor is a LostAnchor error
 Inside appended text every harness is preceded by a line
   //@harness prop=C16[,C03] kind=contract|step|lemma|bounded|witness|canary|cover
              tier=quick|thorough class=P|I [expect=fail] [finding=<id>]
-             [bound=<text>] [timeout=<s>] [cbmc=<extra cbmc args>] [fns=<a;b>]
+             [bound=<text>] [timeout=<s>] [cbmc=<extra cbmc args>] [kani=<extra cargo-kani flags>] [fns=<a;b>]
 and followed (after attributes) by `fn <name>`.
 """
 import os
@@ -82,6 +82,7 @@ class Harness:
     bound: str = ""
     timeout: int = 0
     cbmc: str = ""
+    kani: str = ""
     unwindset: str = ""
     panic: str = ""
     fns: list = field(default_factory=list)
@@ -211,7 +212,7 @@ def harnesses_of(app, ov):
             name=name, unit=ov.unit, crate=ov.crate, props=kv["prop"].split(","), kind=kv["kind"],
             tier=kv["tier"], cls=kv["class"], expect_fail=(kv.get("expect") == "fail"),
             finding=kv.get("finding", ""), bound=kv.get("bound", ""), timeout=int(kv.get("timeout", "0")),
-            cbmc=kv.get("cbmc", ""), unwindset=kv.get("unwindset", ""), panic=kv.get("panic", ""), fns=[x for x in kv.get("fns", "").split(";") if x],
+            cbmc=kv.get("cbmc", ""), kani=kv.get("kani", ""), unwindset=kv.get("unwindset", ""), panic=kv.get("panic", ""), fns=[x for x in kv.get("fns", "").split(";") if x],
             file=app.file, contract_target=target, text=text, qual=qual))
     return out
 
